@@ -725,6 +725,35 @@ template <class V, int N> static void runVecAlgo (const char* name)
     Q e3 = 0;
     for (int i = 0; i < N; ++i) { Q want = (zero ? 0 : 2 * st / ss * sq[i]) - tq[i]; e3 += qabs ((Q) rf[i] - want); }
     check<T> (std::string (name) + ".reflect", "lattice", e3, sc, 16, in);
+    // "scaled" class: the same s multiplied by an exact power of two chosen so that |s|^2 leaves the normal range (underflows to 0 or overflows
+    // to inf) while s itself stays normal.  project / orthogonal / reflect do not depend on |s| (the source normalises s with Vec::normalized (),
+    // whose length () falls back to the scaled lengthTiny () in exactly these cases), so the lattice oracle is unchanged.  A rewrite through
+    // s.length2 () or s ^ s (one division instead of a square root) is exact on the lattice and wrong here.
+    // (the exponent is derived from the operands, not drawn: the random stream of the other classes stays what it was)
+    {
+        static const int exF[4] = {-100, -70, 61, 120}, exD[4] = {-900, -600, 510, 1000};
+        int e = (sizeof (T) == 4 ? exF : exD)[((int) std::fabs ((double) s[0]) + (int) std::fabs ((double) t[0]) + N) % 4];
+        V sb = s * std::ldexp (T (1), e);
+        V pr2 = project (sb, t), or2 = orthogonal (sb, t), rf2 = reflect (t, sb);
+        Q f1 = 0, f2 = 0, f3 = 0;
+        bool fin = true;
+        for (int i = 0; i < N; ++i)
+        {
+            Q want = zero ? 0 : st / ss * sq[i];
+            if (!std::isfinite ((double) pr2[i]) || !std::isfinite ((double) or2[i]) || !std::isfinite ((double) rf2[i])) fin = false;
+            f1 += qabs ((Q) pr2[i] - want);
+            f2 += qabs ((Q) or2[i] - (tq[i] - want));
+            f3 += qabs ((Q) rf2[i] - (2 * want - tq[i]));
+        }
+        std::string in2 = in + " s*2^" + std::to_string (e);
+        if (!fin) { ++evals; flag (std::string (name) + ".project:scaled", "scaled", tname<T> (), "non-finite result for a normal, non-overflowing s", in2); }
+        else
+        {
+            check<T> (std::string (name) + ".project:scaled", "scaled", f1, sc, 8, in2);
+            check<T> (std::string (name) + ".orthogonal:scaled", "scaled", f2, sc, 8, in2);
+            check<T> (std::string (name) + ".reflect:scaled", "scaled", f3, sc, 16, in2);
+        }
+    }
     // closestVertex (exact on the lattice; ties skipped)
     long dd[3];
     for (int k = 0; k < 3; ++k) { dd[k] = 0; for (int i = 0; i < N; ++i) { w[k][i] = (T) li (-4, 4); long df = (long) w[k][i] - (long) p[i]; dd[k] += df * df; } }
